@@ -57,6 +57,10 @@ CHECKS = {
    text="CPT assembly: the real NetworkTransformer.__add_cpt__ is executed path by path on symbolic probabilities for every combination of present notations and every path is closed by z3 against an overlay specification (accept iff rows complete and within tolerance; stored table = default, then table in column-major order, then entries). Generation and queries: CPT entries are symbols; the real CodeGenerator, query classes, parser and analysis run on them and the results are compared by z3 with enumeration of the joint law (every joint valuation after one iteration; E(X^k | evidence); 1/P(evidence)) for all CPT values in (0,1).",
    ref="DESIGN.md 3/C15", tech="per-path symbolic execution (pathfork, floats as reals) of CPT assembly + symbolic-CPT execution of generator/queries with z3 equivalence to joint-law enumeration",
    note="Trusted: the overlay specification and joint-law enumeration in checks/c15.py, vlib/sem.py (reads the generated text), z3. Lark parsing of BIF text is only validated on generated concrete texts; floats are modelled as reals; sampling-time queries use rational CPT values (the limit of a parametric geometric sequence is refused by sympy)."),
+ "C12": dict(cat="other",
+   text="The real Simulator.execute/simulate and Assignment.evaluate are executed path by path with z3 proxies on statement skeletons (if/elif/else, nesting, sequencing, guarded assignments with defaults, guard with stuttering) over a symbolic state; every path is closed against a reference semantics. The real sample() bodies are run with their module namespace rebound so that the arguments handed to scipy become symbolic terms; for every admissible parameter and every value allowed by scipy's documented contract the returned value lies in the declared support, and the contract's mean and variance equal the moments used by the analysis. Choice sites and whole trajectories are validated on concrete scripted runs (every discrete path of <= 2/3 iterations).",
+   ref="DESIGN.md 3/C12", tech="per-path symbolic execution with z3 proxies (pathfork) + module-namespace injection for samplers; concrete scripted trajectory validation where symengine blocks symbolic execution",
+   note="Trusted: reference semantics in checks/c12.py, scipy's documented contracts as stubs, z3. Numeric evaluation through symengine.subs/float cannot be executed symbolically: agreement of whole trajectories is validated concretely (reported as traces_validated_against_impl), not decided by the solver."),
 }
 NA_REASON = "check not built yet in this session (see DESIGN.md section 3 for the planned solver-based check)"
 
